@@ -26,17 +26,18 @@ MODELS = {
                              {"type": "hillpositive", "reactants": ["T"], "products": ["T", "X"], "fields": {"k": 2.0, "K": 5.0, "n": 2, "s1": "T"},
                               "delay": {"type": "gamma", "reactants": [], "products": ["X"], "params": {"k": 2.0, "theta": 0.2}}},
                              {"type": "massaction", "reactants": ["T"], "products": [], "fields": {"k": "d"}}], "rules": []},
-    "rules": {"species": ["Tot", "A", "B", "Flag"], "x0": {"A": 10, "B": 2, "Tot": 99, "Flag": 7}, "params": {"k1": 0.8, "kr": 0.0, "c": 3.0},
+    "rules": {"species": ["Tot", "A", "B", "Flag"], "x0": {"A": 10, "B": 2, "Tot": 99, "Flag": 7}, "params": {"k1": 0.8, "kr": 0.0, "c": 3.0}, "edit": {"c": 8.0},
               "reactions": [{"type": "massaction", "reactants": ["A"], "products": ["B"], "fields": {"k": "k1"}},
                             {"type": "general", "reactants": ["B"], "products": ["A"], "fields": {}, "ast": ["*", ["par", "kr"], ["sp", "B"]]}],
               "rules": [{"type": "assignment", "target": "kr", "ast": ["/", ["par", "c"], ["num", 4]], "frequency": "repeated"},
                         {"type": "additive", "target": "Tot", "sources": ["A", "B"], "frequency": "repeated"},
                         {"type": "assignment", "target": "Flag", "ast": ["*", ["num", 2], ["sp", "Tot"]], "frequency": "repeated"}]},
-    "delays_rules": {"species": ["S", "G", "T"], "x0": {"G": 2, "T": 1, "S": 50}, "params": {"ktx": 2.0, "d": 0.3, "m": 0.25, "s": 0.0625},
+    "delays_rules": {"species": ["S", "G", "T"], "x0": {"G": 2, "T": 1, "S": 50}, "params": {"ktx": 2.0, "d": 0.3, "m": 0.25, "s": 0.0625, "w": 3.0},
+                     "edit": {"w": 5.0, "d": 0.6},
                      "reactions": [{"type": "massaction", "reactants": ["G"], "products": ["G"], "fields": {"k": "ktx"},
                                     "delay": {"type": "gaussian", "reactants": [], "products": ["T"], "params": {"mean": "m", "std": "s"}}},
                                    {"type": "massaction", "reactants": ["T"], "products": [], "fields": {"k": "d"}}],
-                     "rules": [{"type": "assignment", "target": "S", "ast": ["+", ["sp", "G"], ["*", ["num", 3], ["sp", "T"]]], "frequency": "repeated"}]},
+                     "rules": [{"type": "assignment", "target": "S", "ast": ["+", ["sp", "G"], ["*", ["par", "w"], ["sp", "T"]]], "frequency": "repeated"}]},
     "exhausting": {"species": ["A", "W"], "x0": {"A": 3, "W": 0}, "params": {"k": 4.0, "tau": 0.25},
                    "reactions": [{"type": "massaction", "reactants": ["A"], "products": [], "fields": {"k": "k"},
                                   "delay": {"type": "fixed", "reactants": [], "products": ["W"], "params": {"delay": "tau"}}}], "rules": []},
@@ -98,6 +99,7 @@ def run_case(case):
     M = specmod.build_model(sp, "ctor")
     t0, dt, n = GRIDS[case["grid"]]
     tp = t0 + dt * np.arange(n)
+    cur_params = dict(sp["params"])
     src_obj = {"plain": lambda: ModelCSimInterface(M), "safe": lambda: SafeModelCSimInterface(M), "model": lambda: None}[case["src"]]()
 
     def make_kwargs():
@@ -218,7 +220,7 @@ def run_case(case):
         # first row = initial condition with assignment rules applied
         if data is not None and rows >= 1 and data.ndim == 2 and data.shape[1] == nsp:
             x = {s: float(sp["x0"].get(s, 0)) for s in species}
-            p = dict(sp["params"])
+            p = dict(cur_params)
             V0 = {"off": 1.0, "true": 1.0, "num": 2.0, "obj": 1.5, "dividing": 1.0}[case["volume"]]
             ref.apply_rules(sp, x, p, 0.0, V0 if uses_vol else 1.0)
             exp0 = np.array([x[s] for s in species])
@@ -250,6 +252,15 @@ def run_case(case):
             pass
     last = None
     for k in range(2):
+        if k == 1 and sp.get("edit"):
+            # between the two calls the parameter values are edited in place: the second result is the edited model's
+            if rr.random() < 0.5:
+                M.set_params(dict(sp["edit"]))
+            else:
+                for q_, v_ in sp["edit"].items():
+                    M.set_parameter(q_, v_)
+            cur_params.update(sp["edit"])
+            C["value_edits_between_calls"] += 1
         tag = "" if (k == 0 and prior is None) else " [call #%d on this object%s]" % (k + 1, ", after an earlier %s run" % prior if prior else "")
         last = one_call(tag)
         if last["viol"] or "rejected" in "".join(last.get("classes", [])):
